@@ -63,6 +63,7 @@ def offsets_loops(gen_text):
         die('pattern offsets (AST): ' + str(e))
     arity_names = set()
     ptr_names = set()          # locals holding method.slots_strides_ptr
+    ptr_off = {}               # locals holding method.slots_strides_ptr + <offset>:  name -> offset expression
 
     def lin(e, var):
         """linear form {a: coefficient of arity, i: of the loop variable, c: constant} of an index expression, or die"""
@@ -91,6 +92,8 @@ def offsets_loops(gen_text):
             if node and node[0] == 'index' and (node[1] == ('member', ('id', 'method'), 'slots_strides_ptr', False)
                                                 or (node[1][0] == 'id' and node[1][1] in ptr_names)):
                 out.append(node[2])
+            elif node and node[0] == 'index' and node[1][0] == 'id' and node[1][1] in ptr_off:
+                out.append(('bin', '+', ptr_off[node[1][1]], node[2]))          # (p + k)[e] is p[k + e]
             for x in node:
                 out += find_index(x)
         elif isinstance(node, list):
@@ -109,6 +112,11 @@ def offsets_loops(gen_text):
                 continue
             if st[0] == 'decl' and len(st[2]) == 1 and st[2][0][1] == ('member', ('id', 'method'), 'slots_strides_ptr', False):
                 ptr_names.add(st[2][0][0])
+                continue
+            PTR = ('member', ('id', 'method'), 'slots_strides_ptr', False)
+            if (st[0] == 'decl' and len(st[2]) == 1 and st[2][0][1] is not None and st[2][0][1][0] == 'bin' and st[2][0][1][1] == '+'
+                    and (st[2][0][1][2] == PTR or (st[2][0][1][2][0] == 'id' and st[2][0][1][2][1] in ptr_names)) and st[1].replace(' ', '').startswith('const')):
+                ptr_off[st[2][0][0]] = st[2][0][1][3]
                 continue
             if st[0] == 'for':
                 loops.append((st, in_if))
@@ -176,12 +184,8 @@ def main():
         r'static struct \{\s*\n\s*union \{\s*\n\s*struct \{\s*\n\s*uint16_t headroom\[%d\];\s*\n\s*uint16_t slots\[%d\];\s*\n\s*uint16_t vtbls\[%d\];\s*\n'
         r'\s*\} encoded;\s*\n\s*std::uintptr_t vtbls\[%d\];\s*\n\s*\};\s*\n\s*std::uintptr_t dtbls\[%d\];\s*\n\s*\} yomm2_dispatch_data = \{ \{ \{ \{\}, \{', g, GEN)
     # the size computation and the five printed bounds are translated (translators/encsizes.py -> Gen/GenEnc.v), not anchored here
-    one('first_slot_cell', r'<< uint16_t\(cls\.first_slot \| \(cls\.vtbl\.empty\(\) \? stop_bit : 0\)\)', g, GEN)
-    one('entry_stop', r'auto stop = &entry == &cls\.vtbl\.back\(\) \? stop_bit : 0;', g, GEN)
-    one('entry_index_cell', r'os << uint16_t\(entry\.group_index \| index_bit \| stop\);', g, GEN)
-    one('entry_spec_cell', r'os << uint16_t\(spec->spec_index \| stop\);', g, GEN)
-    one('entry_group_cell', r'os << uint16_t\(entry\.group_index \| stop\);', g, GEN)
-    one('dtbl_last_cell', r'\*dt_iter = \(uint16_t\)last->spec_index \| stop_bit;', g, GEN)
+    # the loops that write the cells (first slot | stop, entry cells, the last cell of a table) are translated
+    # (translators/encwrite.py -> Gen/GenWr.v, Proofs/WrSource.v), not anchored here
     # ---- generator.hpp: write_static_offsets, read from its AST (translators/_minicpp.py): the first slot, then two loops
     # under `if (arity > 1)`.  Each loop `for (i = A; i < B; i++) os << ... << slots_strides_ptr[E(i)]` is normalised to the
     # canonical one the model knows, `for (i' = 1; i' < arity; i'++) ... [E'(i')]`, by the substitution i = i' + (A - 1),
